@@ -45,7 +45,15 @@ def container_sequences(n, seed):
             ops_total += 1
 
             def mkval():
-                t = rs.randint(6)
+                t = rs.randint(7)
+                if t == 6:
+                    # an OBJECT-dtype array holding mutable elements (a ragged per-iteration set of points): a deep copy must
+                    # reach the inner objects too
+                    v = np.empty(2, dtype=object)
+                    v[0] = [int(rs.randint(5))]
+                    v[1] = rs.randn(2)
+                    held.append(v)
+                    return v
                 if t == 0:
                     return float(rs.randn())
                 if t == 1:
@@ -104,7 +112,10 @@ def container_sequences(n, seed):
                 v = held[rs.randint(len(held))]
                 had_mut = True
                 trace.append(("mutate",))
-                if isinstance(v, np.ndarray):
+                if isinstance(v, np.ndarray) and v.dtype == object:
+                    v[0].append(55)
+                    v[1] += 7.0
+                elif isinstance(v, np.ndarray):
                     v += 1000.0
                 elif isinstance(v, list):
                     v[0].append(99)
@@ -168,6 +179,8 @@ def _same(rv, mv):
 
 
 def _same_val(rv, mv):
+    if isinstance(mv, np.ndarray) and mv.dtype == object:
+        return isinstance(rv, np.ndarray) and rv.dtype == object and rv.shape == mv.shape and all(_same_val(a, b) for a, b in zip(rv.ravel(), mv.ravel()))
     if isinstance(mv, np.ndarray):
         return isinstance(rv, np.ndarray) and rv.shape == mv.shape and np.array_equal(rv, mv)
     if isinstance(mv, dict):
